@@ -369,6 +369,12 @@ class StrAliasBehindWrappers:
     direct: StrAliasP = None
     qualified: StrAliasQ = None
 @dataclasses.dataclass
+class BagD(dict):
+    # a structured class that ALSO derives from a standard-library type: its fields are members like any other
+    n: int = 0
+    p: Plain2 = None
+    ps: list[Plain2] = dataclasses.field(default_factory=list)
+@dataclasses.dataclass
 class QualifiedLeaves:
     # Literal leaves (their arguments are values, not member types) behind a qualifier; Callable / type[X] are outside U (C15)
     mode: typing.Final[typing.Literal["r", "w"]] = "r"
@@ -422,7 +428,7 @@ def run_special(res):
     ns = prelude.mkmod("tlg_c09_special", SPECIAL).__dict__
     res.programs += 1
     case = {"kind": "special"}
-    for nm in ("Outer.Inner", "UsesNested", "HasAlias", "Wrapped", "RecAlias", "StrAlias", "Link", "GNode", "SharesG", "ProtoNode", "SharedViaQualifier", "CycViaFinal", "HasBasket", "QualifiedLeaves", "StrAliasBehindWrappers"):
+    for nm in ("Outer.Inner", "UsesNested", "HasAlias", "Wrapped", "RecAlias", "StrAlias", "Link", "GNode", "SharesG", "ProtoNode", "SharedViaQualifier", "CycViaFinal", "HasBasket", "QualifiedLeaves", "StrAliasBehindWrappers", "BagD"):
         root = eval(nm, ns)  # noqa: S307
         for form in ("cls", "list", "dict"):
             r = {"cls": root, "list": list[root], "dict": dict[str, root]}[form]
@@ -457,6 +463,15 @@ def run_special(res):
         items = [n for n in nodes if isinstance(n.type, type) and n.type.__name__ == "Item"]
         if len({id(n.type) for n in items}) != 2:
             res.violation("C09/I4-members-first/special:same-named-classes/conflated", f"two same-named classes are not both nodes: {short([n.type for n in nodes], 200)}", dict(case, name="Holder"))
+    # a string-annotated field INHERITED from a base of another module; the subclass's module binds the same name to another class
+    cold.clear_all()
+    pa = prelude.mkmod("tlg_c09_pa", "import dataclasses\n@dataclasses.dataclass\nclass Leaf:\n    v: int = 0\n@dataclasses.dataclass\nclass Base:\n    leaf: 'Leaf' = None\n").__dict__
+    pb = prelude.mkmod("tlg_c09_pb", "import dataclasses, tlg_c09_pa\n@dataclasses.dataclass\nclass Leaf:\n    w: bytes = b''\n@dataclasses.dataclass\nclass Child(tlg_c09_pa.Base):\n    extra: str = ''\n").__dict__
+    nodes = invariants(pb["Child"], "Child(pa.Base) with an inherited string-annotated field", res, dict(case, name="Child"), shape="special:inherited-string-annotation")
+    if nodes:
+        leafs = [n.type for n in nodes if isinstance(n.type, type) and n.type.__name__ == "Leaf"]
+        if pa["Leaf"] not in leafs or pb["Leaf"] in leafs:
+            res.violation("C09/I4-members-first/special:inherited-string-annotation/wrong-class", f"the inherited field `leaf: 'Leaf'` of tlg_c09_pa.Base denotes tlg_c09_pa.Leaf; nodes named Leaf: {leafs!r}", dict(case, name="Child"))
     # a bare string naming different classes in two calling modules (first caller must not win)
     cold.clear_all()
     src_a = "import dataclasses\n@dataclasses.dataclass\nclass Thing:\n    x: int\ndef call1(f, *a, **k):\n    return f(*a, **k)\n"
